@@ -468,6 +468,25 @@ def simd_container(chk, F):
         return
     imp = imps[0]
     I = Poly.var("param.i")
+    # select(cond, other) with the single-lane mask: self when the mask is set, other when it is not
+    body = F.impl_item(imp, "select")
+    if body is None:
+        chk.undecide("simd|Derivative|select", "missing anchor")
+    else:
+        chk.count("SimdValue items (container)")
+        for cond in (True, False):
+            for ps in (True, False):
+                for pr in (True, False):
+                    k2 = "simd|Derivative|select|mask=%s|presence=%s%s" % (cond, "S" if ps else "N", "S" if pr else "N")
+                    try:
+                        it = Interp(F, DOMK, extern=NALGEBRA)
+                        it.elementwise_loops = True
+                        got = alpha(it.call_body(body, [deriv("s", ps), BoolV(cond), deriv("r", pr)]))
+                        want = (var_of("s") if ps else Poly()) if cond else (var_of("r") if pr else Poly())
+                        chk.ob(k2, equal(got, want), "select returns self where the mask is set and the other operand where it is not "
+                               "(absent == zero)", body_loc(F, body), found=got.show(), required=want.show(), nontrivial=bool(want.t))
+                    except Unsupported as ex:
+                        chk.undecide(k2, "unsupported: %s" % ex, body_loc(F, body))
     for name in ("splat", "extract", "replace", "replace_unchecked"):
         body = F.impl_item(imp, name)
         key = "simd|Derivative|%s" % name
